@@ -193,6 +193,9 @@ func bindEval(op string, a []string) string {
 }
 
 var bindKeys = []string{"a", "b", "z", "ctrl-a", "ctrl-x", "alt-b", "enter", "f1", "tab", "space", "esc", "up", "?", "!", "alt-enter", "ctrl-alt-a", "1", "page-up"}
+
+// keys whose names contain the separators of the --bind grammar: accepted as the last key of a list
+var sepKeys = []string{"alt-:", "alt-+", "alt-,", ":", "+", ",", "alt-:", "alt-+"}
 var plainActs = []string{"up", "down", "accept", "abort", "first", "last", "toggle", "toggle-all", "select-all", "clear-query", "beginning-of-line", "kill-line", "yank", "ignore"}
 var argActs = []string{"execute", "execute-silent", "reload", "change-query", "change-prompt", "print", "preview", "transform-query", "change-header", "become", "reload-sync"}
 var argTexts = []string{"echo {}", "ls -l", "a+b", "x,y", "k:v", "f(x)", "[1]", "{q}", "<tag>", "a~b", "100%", "p|q", "", "  ", "x;y", "$1", "a+b,c:d", "don't", "#!", "/", "^$", "up+down", "a)b", "q]r", "echo (nested (parens))",
@@ -360,7 +363,7 @@ func bindGen(r *rand.Rand, count int, emit func(op string, args ...string)) {
 			emit("opts", env, encStrList(gen()))
 		default:
 			ngroups := 1 + r.Intn(3)
-			groups, intents := []string{}, []string{}
+			groups, intents, firstKeys := []string{}, []string{}, []string{}
 			ok := true
 			for g := 0; g < ngroups; g++ {
 				nk := 1 + r.Intn(2)
@@ -374,6 +377,11 @@ func bindGen(r *rand.Rand, count int, emit func(op string, args ...string)) {
 					if !dup { // a key named twice in one list is bound twice (visible with the append form)
 						keys = append(keys, key)
 					}
+				}
+				sepLast := false
+				if r.Intn(5) == 0 {
+					keys = append(keys, sepKeys[r.Intn(len(sepKeys))])
+					sepLast = true
 				}
 				na := 1 + r.Intn(3)
 				rendered, intent := []string{}, []string{}
@@ -402,17 +410,21 @@ func bindGen(r *rand.Rand, count int, emit func(op string, args ...string)) {
 				if g > 0 && r.Intn(3) == 0 { // append form; often to keys bound by an earlier group
 					plus = "+"
 					if r.Intn(2) == 0 {
-						prev := strings.Split(strings.SplitN(groups[r.Intn(len(groups))], ":", 2)[0], ",")[0]
+						prev := firstKeys[r.Intn(len(firstKeys))]
 						dup := false
+						for _, k := range sepKeys {
+							dup = dup || k == prev
+						}
 						for _, k := range keys {
 							dup = dup || k == prev
 						}
-						if !dup {
+						if !dup && !sepLast {
 							keys = append(keys, prev)
 							ks = append(ks, encStr(prev))
 						}
 					}
 				}
+				firstKeys = append(firstKeys, keys[0])
 				groups = append(groups, strings.Join(keys, ",")+":"+plus+strings.Join(rendered, "+"))
 				intents = append(intents, strings.Join(ks, "+")+"="+plus+strings.Join(intent, "&"))
 			}
